@@ -70,6 +70,14 @@ def reader(name, bits, nblk, timeout, tiers=('quick', 'thorough')):
 
 def obligations(tier):
     o = []
+    o.append(Obl('O3_level1_cache_keyed_by_signal', 'c04_errprop.c', units=['core.c', 'reader.c', 'buffer.c'],
+                 defines=['JLS_VERIF_SIGNAL_COUNT=3', 'JLS_VERIF_SOURCE_COUNT=2', 'JLS_VERIF_FSR_BUFFER_U64=2', 'JLS_VERIF_BUF_DEFAULT_SIZE=160', 'JLS_VERIF_BUF_STRING_SIZE=32',
+                          'JLS_VERIF_F64_BUF_LENGTH_MIN=16', 'ENTRY=9'],
+                 unwind=18, unwind_text=[('feed', r'SYM_BYTES', 66), ('jls_core_rd_chunk', r'while \\(1\\)', 3)], typed_calloc=True, timeout=600, backend=PORTFOLIO, objbits=10,
+                 desc='jls_core_rd_fsr_level1 on signal 1 then signal 2 (symbolic sample ids inside the same cached range): the cached level-1 index/summary always belong to the signal being read; '
+                      'a repeated read on the same signal reuses the cache',
+                 bound='two signals, one level-1 index chunk each, chunk payload bytes symbolic',
+                 assumes=['chunks are served by a feeder at the jls_raw_rd seam']))
     for bits in WIDTHS:
         o.append(reader('O2_reader_w%d' % bits, bits, 3 if bits < 64 else 2, 600 if tier == 'quick' else 1800))
     for bits in WIDTHS:
